@@ -275,6 +275,15 @@ func checkVal(t *testing.T, c ValCase) (v harness.Verdict) {
 		r.call("BuildLogBackendMap(absent)", func() error { _, err := ctfe.BuildLogBackendMap(nil); return err })
 	}
 
+	// evidence only: does the set contain a repeated (backend, tree id) pair, and is every such pair
+	// separated by a log with the same id on another backend?
+	if dup, interleaved := dupShape(c.Logs); dup {
+		if interleaved {
+			v.Class("tree-id:duplicate-interleaved-only")
+		} else {
+			v.Class("tree-id:duplicate-adjacent")
+		}
+	}
 	mc := c.multiProto()
 	o := r.call("ValidateLogMultiConfig", func() error { _, err := ctfe.ValidateLogMultiConfig(mc); return err })
 	r.expect("ValidateLogMultiConfig", o, whole, invalid)
@@ -304,6 +313,29 @@ func checkVal(t *testing.T, c ValCase) (v harness.Verdict) {
 	return v
 }
 
+// dupShape looks at the logs sharing a tree id, in configuration order: dup = some backend occurs twice
+// for one id; interleaved = no two consecutive sharers of any id are on the same backend.
+func dupShape(logs []RawLog) (dup, interleaved bool) {
+	interleaved = true
+	last := map[int64]string{}
+	seen := map[int64]map[string]bool{}
+	for i := range logs {
+		id, be := logs[i].ID, logs[i].Backend
+		if seen[id] == nil {
+			seen[id] = map[string]bool{}
+		}
+		if seen[id][be] {
+			dup = true
+		}
+		if prev, ok := last[id]; ok && prev == be {
+			interleaved = false
+		}
+		seen[id][be] = true
+		last[id] = be
+	}
+	return dup, dup && interleaved
+}
+
 func observe(v *harness.Verdict, o outcome) {
 	switch {
 	case o.panicked:
@@ -318,6 +350,6 @@ func observe(v *harness.Verdict, o outcome) {
 // Validate is the validation half of C15.
 var Validate = harness.Define(harness.Opts{
 	Name: "validate",
-	Rule: "a LogConfigSet (one backend) or LogMultiConfig (1-3 backends) of 1-4 logs that is well-formed by construction (regular / mirror / frozen / read-only logs, pool keys of eight kinds, harness-signed frozen STH, windows, delays, EKU names, mysql:// or postgres:// storage strings), then 0-5 validity-preserving edits and 0-2 invalidating edits from a catalogue with one entry per rule of the statement; presented as Go messages (ValidateLogConfig per log, ValidateLogConfigs, BuildLogBackendMap, ValidateLogMultiConfig, ToMultiLogConfig) and through LogConfigFromFile / MultiLogConfigFromFile in text and binary form. Oracle: no panic; accepted <=> no invalidating edit (labels by construction). Non-trivial: >= 1 edit",
+	Rule: "a LogConfigSet (one backend) or LogMultiConfig (1-4 backends) of 1-6 logs that is well-formed by construction (regular / mirror / frozen / read-only logs, pool keys of eight kinds, harness-signed frozen STH, windows incl. sub-second ones, delays, EKU names, prefixes with leading/trailing/doubled slashes, mysql:// or postgres:// storage strings), then 0-5 validity-preserving edits and 0-2 invalidating edits from a catalogue with one entry per rule of the statement; presented as Go messages (ValidateLogConfig per log, ValidateLogConfigs, BuildLogBackendMap, ValidateLogMultiConfig, ToMultiLogConfig) and through LogConfigFromFile / MultiLogConfigFromFile in text and binary form. Oracle: no panic; accepted <=> no invalidating edit (labels by construction). Non-trivial: >= 1 edit",
 	Quick: 3000, Thorough: 20000, MaxSample: 2500,
 }, genVal, checkVal)
